@@ -75,7 +75,7 @@ def gen_sets(rnd, count, bsizes=(2, 3, 4, 8), big=False):
     out = []
     sizes = [1, 2, 3, 4, 5, 7, 8, 9, 12, 15, 16, 17, 24, 31, 32, 33, 40]
     if big:
-        sizes += [63, 64, 65, 100, 128, 200, 257, 400]
+        sizes += [63, 64, 65, 100, 128, 200]
     for k in range(count):
         n = rnd.choice(sizes)
         shape = SHAPES[k % len(SHAPES)] if k < 3 * len(SHAPES) else rnd.choice(SHAPES)
